@@ -59,6 +59,9 @@ type recv struct {
 }
 
 func run(c *mc.Ctx) {
+	if edpts.Reduced {
+		c.Cap("coordinate hooks of package curve do not compile against this tree: points are built/read through the public API only (no well-formedness test of internal representations, no reference-built projective scalings)")
+	}
 	benc := ref.Base.Encode()
 	tor := ref.Torsion()
 	g0 := new(big.Int).Mod(ref.FromLE(mc.Bytes(c.Seed, "c10-g", 0, 32)), ref.L)
@@ -84,7 +87,7 @@ func run(c *mc.Ctx) {
 	E := alphed.EdEncodings(c.Seed, c.Pick(3000, 30000))
 	c.Rep.Extra["alphabet_E_strings"] = len(E)
 	alphed.Par(c, "decode", len(E), func(w *mc.W, i int) {
-		b := E[i]
+		b, intact := alphed.Guarded(E[i]) // handed over with spare capacity between guard bytes
 		pt, ok, canonDec := ref.Decode(b)
 		canon, why := refCanonical(b)
 		if ok && canon != canonDec {
@@ -206,6 +209,9 @@ func run(c *mc.Ctx) {
 				w.Fail("CompressedEdwardsY.UnmarshalBinary/receiver", fmt.Sprintf("after failed UnmarshalBinary(%x) the receiver is %x, not the identity encoding", b, u[:]), cas)
 			}
 		}
+		if !intact() {
+			w.Fail("caller-memory/decode", fmt.Sprintf("a decoder wrote to the caller's buffer around/in %x", E[i]), cas)
+		}
 		if i%211 == 0 {
 			w.Sample(map[string]string{"op": "decode", "bytes": hx(b), "class": cls})
 		}
@@ -245,9 +251,10 @@ func run(c *mc.Ctx) {
 		},
 		func(n int) []byte { return mc.Bytes(c.Seed, "c10-len", n, n) },
 	}
-	alphed.Par(c, "lengths", 71*len(contents), func(w *mc.W, i int) {
+	alphed.Par(c, "lengths", 301*len(contents), func(w *mc.W, i int) {
 		n, k := i/len(contents), i%len(contents)
-		b := contents[k](n)
+		raw := contents[k](n)
+		b, intact := alphed.Guarded(raw)
 		_, ok, _ := ref.Decode(b) // false for every length != 32
 		cas := map[string]string{"len": fmt.Sprint(n), "bytes": hx(b)}
 		w.Eval(fmt.Sprintf("lengths/len32=%v", n == 32), n != 32)
@@ -302,6 +309,9 @@ func run(c *mc.Ctx) {
 		if _, err := mp.SetBytes(b); (err == nil) != (n == 32) || (err == nil && !bytes.Equal(mp[:], b)) {
 			w.Fail("MontgomeryPoint.SetBytes/length", fmt.Sprintf("MontgomeryPoint.SetBytes with %d bytes: err=%v", n, err), cas)
 		}
+		if !intact() {
+			w.Fail("caller-memory/lengths", fmt.Sprintf("a decoder wrote to the caller's buffer (input of %d bytes)", n), cas)
+		}
 	})
 
 	// ------------------------------------------------------------------ histories
@@ -312,6 +322,9 @@ func run(c *mc.Ctx) {
 
 	// ------------------------------------------------------------------ Montgomery -> Edwards
 	montSpace(c, receivers)
+
+	// ------------------------------------------------------------------ audit themes (notes/THEMES.md): aliasing, reuse, special points, output shapes
+	themes(c, tor, lam, benc)
 
 	// ------------------------------------------------------------------ CompressedEdwardsY.Equal
 	nq := c.Pick(260, 700)
@@ -531,24 +544,28 @@ func pointSpace(c *mc.Ctx, tor [8]ref.Point, lam []*big.Int) {
 
 	// ---- representations (library side, built from reference coordinates)
 	var reps []*prep
-	for k, pi := range pts {
-		z1 := edpts.FromRef(pi.p)
-		reps = append(reps, &prep{k, "Z=1", true, z1})
-		reps = append(reps, &prep{k, "rescale(2)", false, edpts.Rescale(z1, lam[1])})
-		reps = append(reps, &prep{k, "coords(-1)", false, edpts.FromRefScaled(pi.p, lam[2])})
-		reps = append(reps, &prep{k, "rescale(generic0)", false, edpts.Rescale(z1, lam[3])})
-		reps = append(reps, &prep{k, "coords(generic1)", false, edpts.FromRefScaled(pi.p, lam[4])})
-		q := refmul.BaseMul(big.NewInt(int64(3 + k)))
-		var s, d curve.EdwardsPoint
-		s.Add(edpts.FromRef(pi.p.Sub(q)), edpts.FromRef(q))
-		reps = append(reps, &prep{k, "lib.Add(P-Q,Q)", false, &s})
-		d.Sub(edpts.Rescale(edpts.FromRef(pi.p.Add(q)), lam[3]), edpts.FromRef(q))
-		reps = append(reps, &prep{k, "lib.Sub(P+Q,Q)", false, &d})
-		if c.Thorough {
-			var dd curve.EdwardsPoint
-			dd.Add(&s, edpts.FromRef(ref.Identity()))
-			reps = append(reps, &prep{k, "lib.Add(lib.Add(P-Q,Q),O)", false, &dd})
+	if !alphed.Guard(c, "representations-build", func() {
+		for k, pi := range pts {
+			z1 := edpts.FromRef(pi.p)
+			reps = append(reps, &prep{k, "Z=1", true, z1})
+			reps = append(reps, &prep{k, "rescale(2)", false, edpts.Rescale(z1, lam[1])})
+			reps = append(reps, &prep{k, "coords(-1)", false, edpts.FromRefScaled(pi.p, lam[2])})
+			reps = append(reps, &prep{k, "rescale(generic0)", false, edpts.Rescale(z1, lam[3])})
+			reps = append(reps, &prep{k, "coords(generic1)", false, edpts.FromRefScaled(pi.p, lam[4])})
+			q := refmul.BaseMul(big.NewInt(int64(3 + k)))
+			var s, d curve.EdwardsPoint
+			s.Add(edpts.FromRef(pi.p.Sub(q)), edpts.FromRef(q))
+			reps = append(reps, &prep{k, "lib.Add(P-Q,Q)", false, &s})
+			d.Sub(edpts.Rescale(edpts.FromRef(pi.p.Add(q)), lam[3]), edpts.FromRef(q))
+			reps = append(reps, &prep{k, "lib.Sub(P+Q,Q)", false, &d})
+			if c.Thorough {
+				var dd curve.EdwardsPoint
+				dd.Add(&s, edpts.FromRef(ref.Identity()))
+				reps = append(reps, &prep{k, "lib.Add(lib.Add(P-Q,Q),O)", false, &dd})
+			}
 		}
+	}) {
+		return
 	}
 	c.Rep.Extra["points"] = len(pts)
 	c.Rep.Extra["representations"] = len(reps)
